@@ -22,6 +22,8 @@ type HistOpts struct {
 	Params DParams
 	UseRef bool
 	Race   bool
+	// RestartPermille: probability (per mille) of stopping and restarting the replica process after a commit.
+	RestartPermille int
 	// Hook is called after each committed block (for checks that need extra observation).
 	Hook func(hr *HistRun, h int64) error
 	// Script may replace / extend the generated block.
@@ -225,7 +227,7 @@ func runHistory(c *Ctx, caseIdx int, rng *rand.Rand, o *HistOpts) *HistRun {
 		return hr
 	}
 	hr.R = r
-	defer r.Close()
+	defer func() { r.Close() }()
 	if _, err := r.Info(); err != nil {
 		c.Err(caseIdx, "info", err)
 		return hr
@@ -372,6 +374,29 @@ func runHistory(c *Ctx, caseIdx int, rng *rand.Rand, o *HistOpts) *HistRun {
 		c.Count("proposals-frozen", so.Frozen)
 		c.Count("proposals-applied", so.Applied)
 		c.Count("validator-updates", len(res.End.ValidatorUpdates))
+		if o.RestartPermille > 0 && h < int64(o.Blocks) && rng.Intn(1000) < o.RestartPermille {
+			if err := r.Stop(); err != nil {
+				c.Err(caseIdx, "stop", err)
+				return hr
+			}
+			r2, info, err := openReplica(c, dir, g.G, SpawnOpt{Race: o.Race}, false)
+			if err != nil {
+				if de, ok := err.(*ErrDead); ok {
+					hr.Died = de
+					hr.issue("C07", "restart-open-fails:"+sigLine(de.Stderr), fmt.Sprintf("history %s: the node does not start after a graceful stop at height %d\n%s", o.Name, h, de.Error()))
+					return hr
+				}
+				c.Err(caseIdx, "reopen", err)
+				return hr
+			}
+			r = r2
+			hr.R = r2
+			_ = r.SetTimes(hr.Times)
+			if info.LastBlockHeight != h || hx(info.LastBlockAppHash) != hx(hr.AppHash) {
+				hr.issue("C07", "restart-info", fmt.Sprintf("history %s: after a restart at height %d Info reports height %d hash %x (expected %x)", o.Name, h, info.LastBlockHeight, info.LastBlockAppHash, hr.AppHash))
+			}
+			c.Count("restarts-inside-history", 1)
+		}
 		if o.Hook != nil {
 			if err := o.Hook(hr, h); err != nil {
 				c.Err(caseIdx, "hook", err)
